@@ -248,6 +248,145 @@ def gen_hist_steps(rng, n, sdtype, nsteps):
     return steps
 
 
+# ---- numerically extreme and exactly degenerate members of the input space (op num, oracle only) -------------------
+# The property quantifies over ALL complex states, all TTNOs and all tensor products: a tensor network has a gauge
+# freedom (a factor moved from one tensor into another leaves the represented state unchanged), a state may have a tiny or
+# a huge norm, an operator tiny or huge coefficients, and a site may sit in an exact basis state on which every term of
+# the operator has an exactly vanishing matrix element.  References are dense numpy on the same arrays; tolerances are
+# RELATIVE to the scale of the reference (no absolute term), so a value that collapses to 0 / nan is seen at every scale.
+NUM_KINDS = ("gauge", "norm", "gauge+norm", "frozen", "frozen+gauge")
+KILL_KINDS = ("lower", "raise", "rand0", "shift", "offdiag")
+
+
+def gen_num_case(rng, st, thorough=False):
+    """one num case for a setup: how the state's tensors are scaled / frozen and what is measured on the network"""
+    n = len(st["parents"])
+    phys = st["phys"]
+    kind = rng.choice(["gauge", "gauge", "gauge", "norm", "gauge+norm", "frozen", "frozen", "frozen", "frozen+gauge"])
+    scales = [0.0] * n
+    if "gauge" in kind:
+        # per-node factors 10^e, e spread over +-9 orders of magnitude, one node compensates: the state is unchanged
+        for i in range(n):
+            scales[i] = float(rng.choice([0, 0, rng.randrange(-9, 10), rng.uniform(-9, 9)]))
+        comp = rng.randrange(n)
+        scales[comp] = 0.0
+        scales[comp] = -float(sum(scales))
+        if n == 1:
+            scales = [0.0]
+    if "norm" in kind or (kind == "gauge" and n == 1):
+        # the norm of the state: 10^E on one node or spread evenly over all nodes
+        E = float(rng.choice([rng.randrange(-20, 21), rng.uniform(-20, 20), -5, -6, 8]))
+        if rng.random() < 0.5:
+            scales[rng.randrange(n)] += E
+        else:
+            scales = [e + E / n for e in scales]
+    frozen = []
+    if "frozen" in kind:
+        # sites in an exact basis state |j> (tensor = anything on the virtual legs (x) e_j): not entangled through the
+        # physical leg, all other entries exactly zero
+        for i in rng.sample(range(n), rng.choice([1, 1, 1, min(2, n), rng.randrange(1, n + 1)])):
+            frozen.append([i, rng.randrange(phys[i])])
+    meas = [{"a": "trace"}]
+    for _ in range(rng.choice([2, 3])):
+        m = rng.choice([0, 1, 1, 2, n, rng.randrange(0, n + 1)])
+        sites = rng.sample(range(n), min(m, n))
+        kill = None
+        if frozen and rng.random() < 0.6:
+            f = rng.choice(frozen)
+            if f[0] not in sites:
+                sites.insert(rng.randrange(len(sites) + 1), f[0])
+            kill = [f[0], f[1], rng.choice(KILL_KINDS)]
+        oexp = 0.0 if rng.random() < 0.6 else float(rng.choice([rng.randrange(-8, 9), rng.uniform(-8, 8)]))
+        meas.append({"a": "tp", "sites": sites, "oseed": rng.randrange(10 ** 9), "oexp": oexp, "kill": kill})
+    for _ in range(2 if thorough else 1):
+        annih = None
+        if frozen and rng.random() < 0.75:
+            f = rng.choice(frozen)
+            annih = [f[0], f[1]]
+        hexp = 0.0 if rng.random() < 0.55 else float(rng.choice([rng.randrange(-12, 9), rng.uniform(-12, 8)]))
+        meas.append({"a": "ttno", "hseed": rng.randrange(10 ** 9), "nterms": rng.randrange(1, 5), "hexp": hexp,
+                     "hwhere": rng.choice(["coeff", "matrix"]), "annih": annih,
+                     "control": bool(annih is not None and n >= 2 and rng.random() < 0.25)})
+    rng.shuffle(meas)
+    return {"kind": kind, "scales": scales, "frozen": frozen, "meas": meas, "canon": False}
+
+
+def apply_tweaks(ttns, names, case):
+    """scales / freezes the arrays of the state in place, before the network is built from it"""
+    for i, e in enumerate(case.get("scales") or []):
+        if e:
+            ttns._tensors.data[names[i]] *= 10.0 ** e
+    for i, j in case.get("frozen") or []:
+        raw = ttns._tensors.data[names[i]]
+        ax = ttns.nodes[names[i]].leg_permutation[-1]       # the physical leg is the last logical leg
+        for p in range(raw.shape[ax]):
+            if p != j:
+                raw[(slice(None),) * ax + (p,)] = 0
+
+
+def kill_matrix(nprs, d, j, how):
+    """a non-Hermitian d x d operator whose matrix element <j|.|j> vanishes exactly"""
+    if d == 1:
+        return np.zeros((1, 1), dtype=complex)
+    if how == "lower":
+        return np.diag(np.sqrt(np.arange(1, d)), k=1).astype(complex)
+    if how == "raise":
+        return np.diag(np.sqrt(np.arange(1, d)), k=-1).astype(complex)
+    if how == "shift":
+        return np.roll(np.eye(d), 1, axis=0).astype(complex)
+    m = nprs.standard_normal((d, d)) + 1j * nprs.standard_normal((d, d))
+    if how == "offdiag":
+        m[np.arange(d), np.arange(d)] = 0
+    else:
+        m[j, j] = 0
+    return m
+
+
+def num_ham(stp, ids, dims):
+    """a non-Hermitian Hamiltonian for a num measurement: random complex factors; `hexp`: the overall scale 10^hexp sits in
+    a symbolic coefficient or in one matrix of every term; `annih` = [site, j]: every term acts on that site with an operator
+    whose <j|.|j> element is exactly zero (`control`: one further term that does not act on the site).
+    Returns the Hamiltonian, its dense matrix and sum_t |c_t| prod ||factor||_2 (the scale rounding errors live on)."""
+    from fractions import Fraction
+    from pytreenet.operators.hamiltonian import Hamiltonian
+    rng = random.Random(stp["hseed"])
+    nprs = np.random.RandomState(rng.randrange(2 ** 31))
+    conv = {f"I{d}": np.eye(d) for d in sorted(set(dims.values()))}
+    cm = {"1": 1}
+    big = 10.0 ** stp["hexp"]
+    in_coeff = stp["hexp"] != 0 and stp["hwhere"] == "coeff"
+    if in_coeff:
+        cm["g"] = big * complex(nprs.standard_normal(), nprs.standard_normal())
+    annih = stp.get("annih")
+    terms, tscale = [], 0.0
+    nterms = stp["nterms"] + (1 if stp.get("control") else 0)
+    for t in range(nterms):
+        is_control = stp.get("control") and t == nterms - 1
+        pool = [i for i in range(len(ids)) if not (is_control and i == annih[0])]
+        sites = rng.sample(pool, rng.randrange(1, len(pool) + 1))
+        if annih is not None and not is_control and annih[0] not in sites:
+            sites[rng.randrange(len(sites))] = annih[0]
+        tp = {}
+        sc = 1.0
+        for q, i in enumerate(sites):
+            d = dims[ids[i]]
+            if annih is not None and i == annih[0]:
+                m = kill_matrix(nprs, d, annih[1], rng.choice(KILL_KINDS))
+            else:
+                m = nprs.standard_normal((d, d)) + 1j * nprs.standard_normal((d, d))
+            if stp["hexp"] != 0 and not in_coeff and q == 0:
+                m = m * big
+            conv[f"T{t}_{i}"] = m
+            tp[ids[i]] = f"T{t}_{i}"
+            sc *= float(np.linalg.norm(m, 2))
+        fr = Fraction(rng.choice([1, 2, -1, 3, -2]), rng.choice([1, 2, 3]))
+        g = "g" if in_coeff else "1"
+        terms.append((fr, g, TensorProduct(tp)))
+        tscale += abs(float(fr) * cm[g]) * sc
+    ham = Hamiltonian(terms, conv, cm)
+    return ham, util.dense_ham(ham, ids, dims), tscale
+
+
 # ==== BEGIN diagram-level tie of the contraction code (model coq/theories/TTNDO/Contr.v) ==========================
 # For every explored build case: the density-operator network is the store program TTNDO/Sym.from_ttns_ops (already tied
 # exactly to the implementation's network by the build comparison above: node records, leg permutations, raw shapes,
@@ -420,8 +559,17 @@ class C16(Prop):
             "expectation, the caller going on to use the SOURCE state through the library (apply_operator on 1..N sites, canonical_form, move_orthogonalization_center, "
             "normalise(), single-site measurement, an in-place scaling of an array the source holds), a second network with another k built from the same (possibly "
             "advanced) source; every measurement on the first network is judged "
-            "against |psi><psi| of the state it was built from, a second network against the dense state of the source when it is built. non-trivial = at least 2 nodes or an "
-            "operator / history case; distinct by case content")
+            "against |psi><psi| of the state it was built from, a second network against the dense state of the source when it is built. Numerically extreme and "
+            "exactly degenerate inputs (op num, quick 1 / thorough 3 per setup, oracle only, tolerance 1e-9 RELATIVE to |reference| + |<psi|psi>| x operator scale, no "
+            "absolute term): gauge-scaled states (the tensor of node i times 10^e_i, e_i spread over [-9, 9], one node compensating so that the represented state is "
+            "unchanged), tiny- / huge-norm states (10^E, E in [-20, 20], on one node or spread over all), both together; states with 1..N sites frozen in an exact basis "
+            "state |j> (tensor = anything on the virtual legs (x) e_j, all other entries exactly 0), alone or gauge-scaled; on ONE network a shuffled list of "
+            "measurements: trace, 2-3 tensor products on 0..N sites (40%: first factor times 10^g, g in [-8, 8]; on frozen states 60%: a factor on a frozen site whose "
+            "<j|.|j> element is exactly zero: lowering / raising / cyclic shift / random with zero diagonal / random with one zero entry, the 1x1 zero matrix on a "
+            "dimension-1 leg), TTNO expectation of a non-Hermitian Hamiltonian with 1-4 terms (45%: scaled by 10^h, h in [-12, 8], in a symbolic coefficient or in one "
+            "matrix per term; on frozen states 75%: EVERY term acts on one frozen site with such an annihilating operator, so that a whole subtree block and the value "
+            "vanish exactly, 25% of those with one further term that does not act on the site). non-trivial = at least 2 nodes or an "
+            "operator / history / num case; distinct by case content")
     clauses = [
         ("F", "from_ttns structure for every tree, dimension assignment and k: node set and dictionary order, unique identifiers, root with "
               "children (ket root, bra root) and shape (k,k,1), ket/bra branches are images of the state's tree with ordered children and "
@@ -485,7 +633,10 @@ class C16(Prop):
               "trace() = <psi|psi>, TTNO expectation = <psi|H|psi> (also for an operator network with its own child order), tensor-product expectation "
               "= <psi|(x)O|psi> against an independent dense numpy oracle, also for states stored in float64 arrays / Fortran order, real / Fortran-ordered / strided "
               "factors, on a network nothing was asked of before, and along histories (several measurements on one network, operator objects reused, the source "
-              "state advanced through the library API after the build, a second network from the same source; no model for these: oracle only); tensor-product "
+              "state advanced through the library API after the build, a second network from the same source; no model for these: oracle only), and for badly "
+              "scaled inputs with a tolerance relative to the reference (gauge factors 1e-9..1e+9 between the tensors of one state, norms 1e-20..1e+20, operator "
+              "scales 1e-12..1e+8) and exactly degenerate ones (sites in an exact basis state, operators with exactly vanishing matrix elements, values and whole "
+              "subtree blocks exactly 0: the value must be finite and 0 up to the rounding scale, not nan) (op num, oracle only); tensor-product "
               "calls leave the receiver (trace still <psi|psi>) and the factor matrices unchanged. The value statements for trace() and for tensor products on any number of distinct sites are the O clauses above; for the TTNO "
               "expectation value the corresponding value statement is not a Coq theorem (diagram level C16_expectation_closed + these ties only)"),
     ]
@@ -498,7 +649,9 @@ class C16(Prop):
                     "diagram of that path is not tied per instance to the library's number (the tensor-product value is compared with the dense oracle only)",
                     "gvalue (Contr/TensorProdBridge.v) as the denotation of a glued diagram: a definition, justified by C04_gvalue_g_tensordot and by the "
                     "einsum tie of the same diagrams against the library's numbers",
-                    "dense references: util.dense_vec / dense_tp / dense_ham / dense_ttno (einsum, Kronecker products), tolerance 1e-9 relative to the operator scale",
+                    "dense references: util.dense_vec / dense_tp / dense_ham / dense_ttno (einsum, Kronecker products), tolerance 1e-9 relative to the operator scale "
+                    "(op num: 1e-9 x (|reference| + |<psi|psi>| x prod ||factor||_2 resp. x sum_t |c_t| prod ||factor||_2), no absolute term; exponents are bounded "
+                    "so that no intermediate of the dense reference or of an exact contraction over- or underflows)",
                     "NumPy tensordot / transpose / matmul / [0] on a length-1 axis implement the diagram operations of TTNDO/Contr.v (validated per build case: "
                     "einsum of the model diagram = library value); ttndo[id] is modelled by the logical (transposed) view, as in Contr/Blocks.v"]
     assumptions = ["root bond dimension k >= 1 (positivity_check rejects others)",
@@ -579,6 +732,9 @@ class C16(Prop):
                                   odtype=od, olayout=ol, fresh=rng.random() < 0.5))
             for _ in range(ctx.scale(2, 5)):
                 cases.append(dict(st, op="hist", steps=gen_hist_steps(rng, n, st["sdtype"], rng.randrange(1, 6))))
+            # badly scaled / tiny- or huge-norm / exactly degenerate states and operators (oracle only, relative tolerances)
+            for _ in range(ctx.scale(1, 3)):
+                cases.append(dict(st, op="num", **gen_num_case(rng, st, ctx.thorough())))
         # malformed inputs: both sides must reject (non-positive root bond dimension, empty state)
         for k in (0, -1, -3, 1, 2):
             for empty in (False, True):
@@ -608,7 +764,7 @@ class C16(Prop):
     def nontrivial(self, case):
         if case["op"] in ("ids", "reject"):
             return True
-        return len(case["parents"]) >= 2 or case["op"] in ("ttno", "tp", "hist")
+        return len(case["parents"]) >= 2 or case["op"] in ("ttno", "tp", "hist", "num")
 
     def distribution(self, cases):
         c = Counter()
@@ -629,6 +785,20 @@ class C16(Prop):
                 c[f"hist:steps={len(x['steps'])}"] += 1
                 for stp in x["steps"]:
                     c["hist-step:" + stp["a"]] += 1
+            if x["op"] == "num":
+                c["num:kind=" + x["kind"]] += 1
+                ex = [abs(e) for e in x["scales"]]
+                c["num:largest-tensor-scale=1e+-" + ("0" if max(ex) == 0 else "(0,3]" if max(ex) <= 3 else "(3,6]" if max(ex) <= 6 else "(6,12]" if max(ex) <= 12 else ">12")] += 1
+                tot = abs(sum(x["scales"]))
+                c["num:state-norm=" + ("unchanged" if tot < 1e-9 else "1e+-(0,6]" if tot <= 6 else "1e+-(6,20]")] += 1
+                c[f"num:frozen-sites={len(x['frozen'])}"] += 1
+                for stp in x["meas"]:
+                    c["num-meas:" + stp["a"]] += 1
+                    if stp["a"] == "tp":
+                        c["num-tp:" + ("factor-scaled" if stp["oexp"] else "factor-O(1)") + ("/annihilates-frozen-site" if stp["kill"] else "")] += 1
+                    if stp["a"] == "ttno":
+                        c["num-ttno:" + ("scaled-" + stp["hwhere"] if stp["hexp"] else "O(1)")
+                          + ("/every-term-annihilates-one-site" + ("+control-term" if stp["control"] else "") if stp["annih"] else "")] += 1
         c.update(self._stats)
         return dict(c)
 
@@ -641,6 +811,8 @@ class C16(Prop):
         if case.get("canon", case["seed"] % 3 == 0):
             # a state handed over in canonical form (recorded orthogonality centre at a random node)
             ttns.canonical_form(random.Random(case["seed"] + 1).choice(list(ttns.nodes)))
+        if case["op"] == "num":
+            apply_tweaks(ttns, names, case)
         ref = copy.deepcopy(ttns)        # untouched copy: every reference value is computed from it
         ttndo = from_ttns(ttns, root_id=case["root_id"], root_bond_dim=case["k"])
         return ttns, ref, ttndo
@@ -761,7 +933,55 @@ class C16(Prop):
         if op == "hist":
             ob["steps"] = self._impl_hist(case, ttns, ref, ttndo, psi, ids, dims)
             return ob
+        if op == "num":
+            ob["steps"] = self._impl_num(case, ref, ttndo, psi, ids, dims)
+            return ob
         raise ValueError(op)
+
+    def _impl_num(self, case, ref, ttndo, psi, ids, dims):
+        """the measurements of a num case on ONE network; every record carries the dense reference and the scale rounding
+        errors live on (|<psi|psi>| times the product of the factor norms resp. the sum over the terms of |c| prod ||factor||)"""
+        names = case["names"]
+        nrm = complex(np.vdot(psi, psi))
+        recs = []
+        for stp in case["meas"]:
+            a = stp["a"]
+            rec = {"a": a}
+            try:
+                with np.errstate(all="ignore"):
+                    if a == "trace":
+                        rec.update(value=cplx(ttndo.trace()), ref=cplx(nrm), scale=float(abs(nrm)))
+                    elif a == "tp":
+                        nprs = np.random.RandomState(stp["oseed"] % (2 ** 31))
+                        sites = [names[i] for i in stp["sites"]]
+                        mats = []
+                        for q, i in enumerate(stp["sites"]):
+                            if stp["kill"] and stp["kill"][0] == i:
+                                m = kill_matrix(nprs, dims[names[i]], stp["kill"][1], stp["kill"][2])
+                            else:
+                                m = make_factor(nprs, dims[names[i]])
+                            if q == 0 and stp["oexp"]:
+                                m = m * 10.0 ** stp["oexp"]
+                            mats.append(m)
+                        opd = {nm: m for nm, m in zip(sites, mats)}
+                        v = ttndo.operator_expectation_value(TensorProduct(opd))
+                        rec.update(value=cplx(v), ref=cplx(np.vdot(psi, util.dense_tp(opd, ids, dims) @ psi)),
+                                   scale=float(abs(nrm) * float(np.prod([np.linalg.norm(m, 2) for m in mats])) if mats else abs(nrm)),
+                                   sites=stp["sites"])
+                    elif a == "ttno":
+                        ham, H, tscale = num_ham(stp, ids, dims)
+                        ttno = util.TTNO.from_hamiltonian(copy.deepcopy(ham), ref)
+                        rec.update(value=cplx(ttndo.operator_expectation_value(ttno)), ref=cplx(np.vdot(psi, H @ psi)),
+                                   scale=float(abs(nrm) * tscale),
+                                   terms=[[str(fr), g, {k: v for k, v in tp.items()}] for fr, g, tp in ham.terms])
+                    else:
+                        raise ValueError(a)
+            except Exception as e:  # noqa
+                import traceback
+                rec["exc"] = f"{type(e).__name__}: {e}"
+                rec["tb"] = traceback.format_exc()[-800:]
+            recs.append(rec)
+        return recs
 
     def _impl_hist(self, case, ttns, ref, ttndo, psi, ids, dims):
         """runs the history of the case; one record per step. Measurements on the first network carry the dense reference
@@ -938,7 +1158,7 @@ class C16(Prop):
     def compare(self, case, ob, mo):
         op = case["op"]
         if "exception" in ob:
-            if op in ("trace", "ttno"):
+            if op in ("trace", "ttno", "num"):
                 return None             # no model for the numerical paths: the oracle reports the exception
             if op == "tp" and case.get("variant") == "suffix":
                 return None             # outside the stated precondition (the oracle decides, see _suffix_gate)
@@ -1045,6 +1265,9 @@ class C16(Prop):
         if op == "hist":
             msg = self._oracle_hist(case, ob)
             return (self._suffix_gate(case, msg) if outside else msg) if msg else None
+        if op == "num":
+            msg = self._oracle_num(case, ob)
+            return (self._suffix_gate(case, msg) if outside else msg) if msg else None
         nrm = uncplx(ob["norm2"])
         val = uncplx(ob["value"])
         if op == "trace":
@@ -1114,6 +1337,42 @@ class C16(Prop):
                        f"{case.get('slayout', 'C')}) after steps {done}: {msg}")
                 return msg
             done.append(a + (str(rec["sites"]) if "sites" in rec else ""))
+        return None
+
+    @staticmethod
+    def _close_rel(a, b, scale):
+        """relative to the reference and the scale rounding errors live on; no absolute term (nan / inf are never close)"""
+        return bool(abs(a - b) <= 1e-9 * (abs(b) + scale))
+
+    def _oracle_num(self, case, ob):
+        """every measurement of a num case against its dense reference with a RELATIVE tolerance"""
+        def e10(e):
+            return f"1e{e:+.3g}" if e else "1"
+        for k, rec in enumerate(ob["steps"]):
+            a = rec["a"]
+            msg = None
+            if "exc" in rec:
+                msg = f"{a} raised {rec['exc']}"
+            else:
+                v, r = uncplx(rec["value"]), uncplx(rec["ref"])
+                if r == 0:
+                    self._stats["num:reference-exactly-0"] += 1
+                if not self._close_rel(v, r, rec["scale"]):
+                    stp = case["meas"][k]
+                    what = {"trace": "trace()",
+                            "tp": f"tensor product on sites {rec.get('sites')}"
+                                  + (f" (first factor times {e10(stp.get('oexp'))})" if stp.get("oexp") else "")
+                                  + (f" (factor on site {stp['kill'][0]}: '{stp['kill'][2]}' matrix with <{stp['kill'][1]}|.|{stp['kill'][1]}> = 0)" if stp.get("kill") else ""),
+                            "ttno": "TTNO expectation value"
+                                    + (f" (Hamiltonian scaled by {e10(stp.get('hexp'))} in a {stp.get('hwhere')})" if stp.get("hexp") else "")
+                                    + (f" (every term acts on site {stp['annih'][0]} with an operator whose <{stp['annih'][1]}|.|{stp['annih'][1]}> element is exactly 0"
+                                       + (", plus one term not acting on it" if stp.get("control") else "") + ")" if stp.get("annih") else "")
+                                    + f" terms {rec.get('terms')}"}[a]
+                    msg = f"{what} = {v} but the pure-state value is {r} (rounding scale {rec['scale']:.3g})"
+            if msg is not None:
+                return (f"{case['kind']} state (tree {case['parents']}, k={case['k']}, physical dimensions {case['phys']}, tensor of node i multiplied by "
+                        f"{[e10(e) for e in case['scales']]}, sites frozen in a basis state [node, j]: {case['frozen']}; stored as "
+                        f"{case.get('sdtype', 'complex')}/{case.get('slayout', 'C')}): measurement {k} on the network: {msg}")
         return None
 
     def classify(self, case, what, known):
